@@ -158,6 +158,7 @@ CLAIMS['C07'] = {
             'families; partial_derivative(0, v) = 0, (1, v) = 1, range [0,1] and the independence values (h = u, c = 1 at Gumbel '
             'theta = 1 and for Independence) are proved, refuted or undecided per family - this rule exposed the fixed defects F20, '
             'F21, F22. D5: reachable early-return shortcuts of the density / conditional CDF must be the independence values 1 / u. '
+            'D6: the base-class finite-difference fallback is (C(copy of X with column 1 moved by a small non-zero step) - C(X)) / that step. '
             'h = dC/dv and c = d2C/du dv as identities, monotonicity and integrals are not decided.',
     'note': NOTE,
     'technique': 'AC normal form of expressions, reduction enumeration with triage table, interval abstract interpretation',
@@ -165,7 +166,9 @@ CLAIMS['C07'] = {
 CLAIMS['C08'] = {
     'text': 'PARTIAL: the generic inverse solves one root problem per (y[i], v[i]) in order with nothing carried between iterations; '
             'the root function is partial_derivative_scalar(u, v_i) - y_i (argument binding checked), returns rank 0 (the rule that '
-            'exposed fixed defect F16) and is bracketed inside [0,1]; Frank/Gumbel/Independence dispatch correctly; D4: at the '
+            'exposed fixed defect F16), the scalar wrapper stacks (u, v) in order, the bracket (folded numerically) spans [0,1] up to 1e-6 and '
+            'has a sign change over the property\'s range (interval evaluation of partial_derivative at the lower end; one corner is the '
+            'recorded defect F24); Frank/Gumbel/Independence dispatch correctly; D4: at the '
             'independence parameter percent_point returns its probability argument unchanged, Clayton\'s closed form is evaluated '
             'on intervals for its range and composed with its partial_derivative on 600 narrow boxes (h(ppf(y,v),v) must meet y: '
             'refutation only). Monotonicity in y and the root-finder tolerance are not decided.',
